@@ -121,14 +121,12 @@ def check(prop, tier, only_units=None, seed=0):
                         rest.append(f)
                 if rest:
                     base = baseline.get(r['name'])
+                    r['failed_unlisted'] = rest
                     if base is None or not base.get('green'):
-                        # never discharged on the unchanged tree: undecided, not a violation
-                        r['status'] = core.UNDECIDED
-                        r['reason'] = 'obligations fail but the unit has no green baseline: %s' % [f['description'] for f in rest[:4]]
-                        undecided.append(r)
-                    else:
-                        r['failed_unlisted'] = rest
-                        violations.append(r)
+                        # never discharged on the unchanged tree: a violation only if a concrete input
+                        # replays on the real code; otherwise undecided
+                        r['needs_confirmation'] = True
+                    violations.append(r)
                 else:
                     r['status'] = core.HOLDS
                     r['known_only'] = True
@@ -152,10 +150,18 @@ def check(prop, tier, only_units=None, seed=0):
         rdir = os.path.join(VERIF, 'replay', 'out')
         os.makedirs(rdir, exist_ok=True)
         viol_records = []
-        for r in violations:
+        for r in list(violations):
             u = byname[r['name']]
             rec = replay.make_replay(prop, u, r, byname, scratch, tier, log_dir, rdir, baseline)
+            if r.get('needs_confirmation') and not rec.get('confirmed'):
+                violations.remove(r)
+                r['status'] = core.UNDECIDED
+                r['reason'] = 'obligations fail, the unit has no green baseline and no concrete input replays: %s' % [
+                    f['description'] for f in r['failed_unlisted'][:4]]
+                undecided.append(r)
+                continue
             viol_records.append(rec)
+            r = next(x for x in violations if x['name'] == rec['unit'])
             line = 'VIOLATION property=%s replay=%s unit=%s obligation="%s"' % (
                 prop, rec['path'], r['name'], rec['obligation'])
             if not rec.get('confirmed'):
